@@ -1,6 +1,7 @@
 import CorsVerif.Proofs.Validate
 import CorsVerif.Proofs.Twins
 import CorsVerif.Proofs.Respell
+import CorsVerif.Proofs.NetFacts
 import CorsVerif.Proofs.C06Assembly
 /-
   C15 — Config lists are sets: order, duplicates and header-name case are irrelevant.
@@ -400,6 +401,12 @@ theorem C15_respelt (ext : Ext) (hext : ∀ h info, ext.ip6 h = some info → h.
   obtain ⟨i2, a2⟩ := (C15_accept_respelt ext h).mp ⟨i1, a1⟩
   exact ⟨i2, a2, C15_full ext hext h.twin i1 i2 a1 a2⟩
 
+/-- `C15_respelt` for the library answers as the driver uses them (`Net.std`): no hypothesis is left. -/
+theorem C15_respelt_std (idna etld : Bytes → Bool) {c1 c2 : Config} (h : Respelt c1 c2) (i1 : ICfg)
+    (a1 : newInternalConfig (Net.std idna etld) c1 = .ok i1) :
+    ∃ i2, newInternalConfig (Net.std idna etld) c2 = .ok i2 ∧ Serve.serve i1 = Serve.serve i2 :=
+  C15_respelt (Net.std idna etld) (Net.hext_std idna etld) h i1 a1
+
 /-! ### Non-vacuity: a concrete pair of accepted twins that differ in order, multiplicity, letter
 case, method spelling and dropped entries -/
 
@@ -477,5 +484,6 @@ example : ∀ h info, extTw.ip6 h = some info → h.head? ≠ some 42 := fun _ _
 #print axioms C15_accept_members
 #print axioms C15_accept_respelt
 #print axioms C15_respelt
+#print axioms C15_respelt_std
 
 end Cors
